@@ -55,9 +55,9 @@ def _sig(o, clause):
 def run(rep):
     rep.rule = ("XmlWriter.tla model-checked (TextIsData on every DOM in bounds) and bound to the real writer (every model DOM serialised by the real "
                 "node()/writexml and judged by TLC); then TLC (Gen_Xml) enumerates every hostile class string of length <=2 (quick; <=3 thorough, 4 simulated) "
-                "over 21 classes (< > & quotes ]]> &amp; comment, processing instruction, tag-like text, &#10;, braces, $, astral, RTL ...); each string is "
-                "written into 26 text-bearing channels of one form (labels with/without ${refs}, hints, guidance, messages, choice labels and extra columns, "
-                "default, title, version, appearance, bind/instance/body/settings custom attributes, itext label/hint/choice label) and converted in both "
+                "over 22 classes (+ 4 function-like texts) (< > & quotes ]]> &amp; comment, processing instruction, tag-like text, &#10;, braces, $, astral, RTL ...); each string is "
+                "written into 28 text-bearing channels of one form (labels with/without ${refs}, hints, guidance, messages, choice labels and extra columns, "
+                "default, title, version, appearance, bind/instance/body/settings custom attributes, itext label/hint/choice label, label and hint of a row copied by a loop) and converted in both "
                 "print modes; the text recovered by ElementTree from the corresponding place must equal the source modulo whitespace cleaning (TLA+ Norm/"
                 "SameData), and the document's element/attribute structure must equal that of the benign baseline form; a default without expression markers must be literal instance text (no action element).")
     rep.assumptions = ["'the corresponding place' per channel is harness/xmlgen.recover", "forms the converter rejects (e.g. '${' opening a malformed reference) are not counted"]
@@ -66,7 +66,7 @@ def run(rep):
     strs = _xml.hostile_strings(rep, rep.tier, rep.seed)
     jobs = [{"classes": s, "fmt": "dict" if i % 6 else ("xlsx" if i % 12 else "md"), "parts": ("c01", "c06")} for i, s in enumerate(strs)]
     outs = conv.map_cases(_xml.run_doc, jobs, chunksize=8)
-    sub, acc, rejected = _xml.validate_docs(rep, PROP, outs, "hostile strings x 26 channels")
+    sub, acc, rejected = _xml.validate_docs(rep, PROP, outs, "hostile strings x 28 channels")
     # hostile text that makes the converter fall over (anything but its own PyXFormError) changed more than an element
     ncrash = 0
     for o in outs:
